@@ -22,8 +22,8 @@ from hplsim import core, gen, seams
 PROP = 'C07'
 
 TIERS = {
-    'quick': dict(runs=700, calls=(10, 40), wall=160),
-    'thorough': dict(runs=16000, calls=(10, 60), wall=2400, marathon=0.004),
+    'quick': dict(runs=700, calls=(10, 40), wall=160, marathon=0.018),
+    'thorough': dict(runs=16000, calls=(10, 60), wall=2400, marathon=0.012),
 }
 
 PARSER_KINDS = ('specification', 'property', 'property', 'predicate', 'condition', 'expression')
@@ -131,7 +131,32 @@ def documented(exc_name, text):
             # so `or (` or `requires (` is a call to an unknown function too
             if nm not in gen.BUILTIN_FUNCTIONS:
                 return True
+            # ... and it matches operator keywords without a word boundary: `x int (0.2)` is read as
+            # `x in t(0.2)`, `p order (1)` as `p or der(1)` - calls to the unknown functions t, der
+            # (only where an operator can stand: right after something that can end an operand)
+            before = text[:m.start(1)].rstrip()
+            if before and (before[-1].isalnum() or before[-1] in '_)]}".'):
+                for rest in _after_keyword_prefixes(nm):
+                    if rest not in gen.BUILTIN_FUNCTIONS:
+                        return True
     return False
+
+
+KEYWORD_PREFIXES = ('in', 'or', 'and', 'not', 'iff', 'implies', 'to')
+
+
+def _after_keyword_prefixes(name, depth=0):
+    """What is left of a name after one or more operator keywords were split off its front."""
+    out = []
+    if depth > 3:
+        return out
+    for kw in KEYWORD_PREFIXES:
+        if name.startswith(kw) and len(name) > len(kw):
+            rest = name[len(kw):]
+            if rest[0].isalpha() or rest[0] == '_':
+                out.append(rest)
+                out.extend(_after_keyword_prefixes(rest, depth + 1))
+    return out
 
 
 ###############################################################################
@@ -359,13 +384,24 @@ def gen_marathon(sim, cfg):
     """Many distinct short texts on ONE long-lived parser object, then the early ones again: state that
     needs a long history to build up (a cache that evicts at its 1025th entry, a counter that wraps)."""
     family, pi = sim.pick('mfamily', (('condition', 4), ('property', 1), ('predicate', 3)))
-    n = sim.pick('mlen', (300, 1100))
+    n = sim.pick('mlen', (300, 1100, 1100, 2100))
+    # what is distinct from one text to the next: number spellings, field names, strings, topics
+    variety = sim.pick('mvariety', ('numbers', 'numbers', 'fields', 'strings', 'topics' if family == 'property' else 'numbers'))
     texts = []
     for i in range(n):
-        body = '(x > %d)' % i if i % 3 else '(k = %d) and p' % i
+        topic = 'a'
+        if variety == 'numbers':
+            body = '(x > %d)' % i if i % 3 else '(k = %d.5) and p' % i if i % 2 else '(k = %d) and p' % i
+        elif variety == 'fields':
+            body = '(field_%d > 1)' % i if i % 3 else '(m.f%d = k) and p' % i
+        elif variety == 'strings':
+            body = '(txt = "s%d")' % i if i % 3 else '(frame_id != "frame %d") and p' % i
+        else:
+            body = '(x > 1)'
+            topic = '/robot/t%d' % i
         if i % 97 == 0:
             body = '(x + True) > %d' % i  # a failing text now and then
-        t = body if family == 'condition' else '{ %s }' % body if family == 'predicate' else 'globally: no a { %s }' % body
+        t = body if family == 'condition' else '{ %s }' % body if family == 'predicate' else 'globally: no %s { %s }' % (topic, body)
         texts.append({'family': family, 'text': t, 'tag': 'marathon'})
     calls = [{'parser': pi, 'text': i, 'fault': None} for i in range(n)]
     calls += [{'parser': pi, 'text': sim.choose('again', min(n, 40)), 'fault': None} for _ in range(30)]
